@@ -11,7 +11,7 @@ LEVEL = "exploration"
 N = {"quick": 120, "thorough": 2500}
 NV = {"quick": 4, "thorough": 5}
 RULE = ("enumerated part: every assignment of roles {absent,input,output}^2 to 4 (quick) / 5 (thorough) variables x assumptions mention "
-        "{nothing, all inputs} per contract x operation in compose (keep in none / first output / first shared output / a non-output), "
+        "{nothing, all inputs} per contract (for merge and compose also operands without any constraint) x operation in compose (keep in none / first output / first shared output / a non-output), "
         "quotient (additional inputs none / one legal / one illegal), merge, refines (must raise unless the interfaces are equal as sets), rename (every source,target pair incl. a fresh name, first "
         "contract only), over a stub theory whose primitives always succeed exactly, so a refusal can only come from the interface logic; "
         "plus ill-formed constructor arguments; generated part: the polyhedral cases of C01/C02/C08/C16; oracle = reference model of the "
@@ -47,6 +47,12 @@ def enumerate_cases(tier):
             if am in ((0, 0), (1, 1)):
                 yield dict(base, op="merge", arg=None)
             if am == (0, 0):
+                # operands without any constraint (empty assumptions and guarantees) still contribute their interface
+                for gm in ((0, 1), (1, 0), (0, 0)):
+                    yield dict(base, op="merge", arg=None, gm=gm)
+                yield dict(base, op="compose", arg=[], gm=(0, 1))
+                yield dict(base, op="compose", arg=[], gm=(1, 0))
+            if am == (0, 0):
                 yield dict(base, op="refines", arg=None)
         if all(b == "-" for b in r2):
             for s in names + ["zz"]:
@@ -69,11 +75,11 @@ def strategy(tier):
     return _poly()
 
 
-def _stub_contract(names, roles, amode):
+def _stub_contract(names, roles, amode, gmode=1):
     ins = [n for n, r in zip(names, roles) if r == "i"]
     outs = [n for n, r in zip(names, roles) if r == "o"]
     d = {"i": ins, "o": outs, "a": [[ins, (1 << (2 ** len(ins))) - 1]] if (amode and ins) else [],
-         "g": [[ins + outs, (1 << (2 ** len(ins + outs))) - 1]] if ins + outs else []}
+         "g": [[ins + outs, (1 << (2 ** len(ins + outs))) - 1]] if (ins + outs and gmode) else []}
     return finite.contract_from(d, True), d
 
 
@@ -131,8 +137,11 @@ def _run_enum(case):
         return {"viol": judge("constructor", verdict, status, res), "nontrivial": True, "labels": labels + ["ctor:" + kind], "outcome": "judged"}
     names = NAMES5[:case["nv"]]
     finite.World.reset(names + ["q", "zz"], [], "exact")
-    c1, d1 = _stub_contract(names, case["r1"], case["am"][0])
-    c2, d2 = _stub_contract(names, case["r2"], case["am"][1])
+    gm = case.get("gm", (1, 1))
+    c1, d1 = _stub_contract(names, case["r1"], case["am"][0], gm[0])
+    c2, d2 = _stub_contract(names, case["r2"], case["am"][1], gm[1])
+    if "gm" in case:
+        labels.append("constraint-free-operand")
     a1v = set(d1["i"]) if d1["a"] else set()
     a2v = set(d2["i"]) if d2["a"] else set()
     common = bool((set(d1["i"]) | set(d1["o"])) & (set(d2["i"]) | set(d2["o"])))
